@@ -132,7 +132,7 @@ func (fx *FuncExec) execCall(st *State, instr ssa.Instruction, c *ssa.CallCommon
 	var siteFrame *CallSiteSpec
 	if fx.fc != nil {
 		for _, cs := range fx.fc.Calls {
-			if cs.Callee == short && (cs.Ordinal == ord || cs.Ordinal == -1) {
+			if (cs.Callee == short || (cs.Ordinal == -1 && strings.HasSuffix(cs.Callee, "*") && strings.HasPrefix(short, strings.TrimSuffix(cs.Callee, "*")))) && (cs.Ordinal == ord || cs.Ordinal == -1) {
 				if cs.HasFrame {
 					siteFrame = cs
 				}
@@ -177,6 +177,8 @@ func (fx *FuncExec) execCall(st *State, instr ssa.Instruction, c *ssa.CallCommon
 	}
 	if fc != nil {
 		fx.usedContracts[name] = true
+		fx.curSiteFrame = siteFrame
+		defer func() { fx.curSiteFrame = nil }()
 		return fx.applyContract(st, instr, fc, fn, name, args, binds, recv, resT)
 	}
 	// no contract
@@ -202,6 +204,7 @@ func (fx *FuncExec) execCall(st *State, instr ssa.Instruction, c *ssa.CallCommon
 		fx.callStats["site-frame"]++
 		fx.assumptions[fmt.Sprintf("trusted frame at call %s in %s: modifies %s", short, fx.relName(), frameText(siteFrame))] = true
 		env := fx.specEnv(st, st)
+		fx.withLoop(env, st)
 		for _, m := range siteFrame.Frame {
 			fx.havocLocation(st, env, m)
 		}
@@ -214,6 +217,10 @@ func (fx *FuncExec) execCall(st *State, instr ssa.Instruction, c *ssa.CallCommon
 		fx.bumpTop(st, res)
 	default:
 		fx.callStats["import-closure-havoc"]++
+		if fx.havocNames == nil {
+			fx.havocNames = map[string]bool{}
+		}
+		fx.havocNames[short] = true
 		fx.havocByRule(st, pkg, args, binds, name)
 		fx.bumpTop(st, res)
 	}
@@ -433,7 +440,12 @@ func (fx *FuncExec) applyContract(st *State, instr ssa.Instruction, fc *FuncCont
 		}
 		for i, fv := range fn.FreeVars {
 			if i < len(binds) {
-				bind[fv.Name()] = binds[i]
+				// a captured variable: contracts name its current value, not the address of its cell
+				if binds[i].Loc != nil && binds[i].S == "" {
+					bind[fv.Name()] = fx.Load(st, binds[i].Loc)
+				} else {
+					bind[fv.Name()] = binds[i]
+				}
 			}
 		}
 	} else {
@@ -462,6 +474,15 @@ func (fx *FuncExec) applyContract(st *State, instr ssa.Instruction, fc *FuncCont
 	case fc.HasMod:
 		for _, m := range fc.Modifies {
 			fx.havocLocation(st, env, m)
+		}
+		fx.bumpTop(st, Val{})
+	case fx.curSiteFrame != nil:
+		// the callee's contract states no frame: the trusted frame declared at this call site applies
+		fx.assumptions[fmt.Sprintf("trusted frame at call %s in %s: modifies %s", shortName(name), fx.relName(), frameText(fx.curSiteFrame))] = true
+		fenv := fx.specEnv(st, st)
+		fx.withLoop(fenv, st)
+		for _, m := range fx.curSiteFrame.Frame {
+			fx.havocLocation(st, fenv, m)
 		}
 		fx.bumpTop(st, Val{})
 	default:
@@ -556,7 +577,7 @@ func (fx *FuncExec) havocLocation(st *State, env *SpecEnv, m Clause) {
 			}
 		}
 	}
-	l := fx.evalLoc(&SpecEnv{fx: fx, cur: env.old, old: env.old, bind: env.bind, calleeFn: env.calleeFn, calleeMode: env.calleeMode}, e)
+	l := fx.evalLoc(&SpecEnv{fx: fx, cur: env.old, old: env.old, bind: env.bind, calleeFn: env.calleeFn, calleeMode: env.calleeMode, loop: env.loop, idxState: env.idxState}, e)
 	if l.Kind == LGhost {
 		fx.Store(st, l, Val{Sort: Sort(l.GSort), S: fx.em.FreshRaw("mod:ghost", l.GSort)})
 		return
